@@ -118,6 +118,10 @@ def check_file(ctx, data, bs, scratch, roundtrip=True, tag="", other=None):
                     a = min(L, max(1, rng.choice([1, w, w + 1, L, rng.randint(1, L), w * rng.randint(0, L // w) + rng.choice([0, 1])])))
                     b = min(L, max(a, rng.choice([a, L, a + w - 1, a + w, rng.randint(a, L)])))
                     pairs.append((a, b))
+                if L > 2**20 + 10:
+                    # unwrapped chromosome: around the 1 MiB mark and beyond
+                    pairs += [(2**20 - 2, 2**20 + 5), (2**20, 2**20), (2**20 + 1, 2**20 + 1), (2**20 + 1, L), (L - 3, L)]
+                    ctx.count("class:sequence-line-longer-than-1MiB")
             for a, b in pairs:
                 g = fi.sequence_bytes(info, a, b).getvalue()
                 ctx.count("random-access:intervals")
@@ -233,6 +237,14 @@ def run(shard, ctx):
         if i % 25 == 24:
             check_file(ctx, malformed_file(rng), rng.choice([1, 7, 250000]), scratch)
             continue
+        if i == 1 and shard["index"] % 4 == 0:
+            # one very long sequence on a single line (an unwrapped chromosome), followed by another record
+            big = bytes(rng.choice(b"ACGT") for _ in range(4096)) * rng.randint(257, 300)
+            cut = rng.randint(2**20 - 5000, 2**20 + 5000)
+            big = big[:cut] + b"N" * rng.randint(1, 300) + big[cut:]
+            data = b">big one\n" + big + rng.choice([b"\n", b"\r\n"]) + b">after\nACGTNNAC\nGT\n"
+            check_file(ctx, data, rng.choice([1000, 65536, 250000]), scratch, roundtrip=True)
+            continue
         data, meta = gfa.gen_fasta(rng)
         check_file(ctx, data, buffers(rng, meta), scratch, roundtrip=(i % 3 == 0), other=gfa.gen_fasta(rng)[0] if i % 6 == 0 else None)
 
@@ -257,6 +269,7 @@ def gates(c, tier):
         "random-access:intervals": 50000,
         "random-access:chunked:strand0": 5000,
         "cache-roundtrip": 300,
+        "class:sequence-line-longer-than-1MiB": 2,
         "cache-replaced-file-equal-mtime": 200,
     }
     out = [f"{k}>={v} (got {c.get(k, 0)})" for k, v in need.items() if c.get(k, 0) < v]
